@@ -23,6 +23,9 @@ CONSTANTS
     NArr,       \* number of events the server sends
     App,        \* the application's calls: <<[op |-> "receive", to |-> BOOLEAN]>> / [op |-> "emit", to |-> FALSE]
     Conn,       \* what happens to the connection: <<"drop", "reconnect", "final", "giveup">>
+    Atomic,     \* FALSE: threads, pre-emption at every Event / buffer operation (SimpleClient)
+                \* TRUE: asyncio (AsyncSimpleClient): a task runs until it awaits a clear
+                \*       event; the handler is atomic; set() latches the waiter's wake-up
     Dev         \* known deviations modelled (known_findings.json); {} = the intended design
 
 VARIABLES st, gh
@@ -31,7 +34,9 @@ vars == <<st, gh>>
 InitSt ==
     [ pcA |-> "start", ak |-> 0, pcH |-> "start", hk |-> 0, pcC |-> "start", ck |-> 0,
       buf |-> <<>>, inEv |-> FALSE, connEv |-> TRUE, connected |-> TRUE,
-      eioUp |-> TRUE, nsUp |-> TRUE, results |-> <<>> ]
+      eioUp |-> TRUE, nsUp |-> TRUE, results |-> <<>>,
+      woken |-> FALSE ]     \* asyncio: the waiter of the event A is parked on has been woken (set() was
+                            \* called); it will return from the wait even if the flag is cleared again
 
 ToStr(n) == ToString(n)
 
@@ -45,7 +50,8 @@ EndCall(s, r) ==    \* the current call returns / raises r; the thread runs on t
 CurOp(s) == App[s.ak + 1]
 
 (* ---- application thread ------------------------------------------------ *)
-StepA(s, c) ==
+StepA(s0, c) ==
+    LET s == [s0 EXCEPT !.woken = FALSE] IN
     CASE s.pcA = "start" -> [s EXCEPT !.pcA = FirstOp(1)]
       [] s.pcA = "buf.len" ->                      \* `while not self.input_buffer`
             IF s.buf # <<>> THEN [s EXCEPT !.pcA = "buf.pop"] ELSE [s EXCEPT !.pcA = "conn.wait"]
@@ -71,8 +77,9 @@ StepA(s, c) ==
             EndCall([s EXCEPT !.buf = Tail(@)], <<"ok", "ev", Head(s.buf)>>)
 
 BlockedA(s) ==
-    \/ s.pcA = "conn.wait" /\ ~s.connEv
-    \/ s.pcA = "inp.wait" /\ ~s.inEv
+    /\ ~s.woken
+    /\ \/ s.pcA = "conn.wait" /\ ~s.connEv
+       \/ s.pcA = "inp.wait" /\ ~s.inEv
 CanTimeoutA(s) == s.pcA \in {"conn.wait", "inp.wait"} /\ CurOp(s).to
 
 (* ---- handler thread ---------------------------------------------------- *)
@@ -82,6 +89,7 @@ StepH(s) ==
       [] s.pcH = "buf.append" -> [s EXCEPT !.buf = Append(@, ToStr(s.hk + 1)), !.pcH = "inp.set"]
       [] s.pcH = "inp.set" ->
             [s EXCEPT !.inEv = TRUE, !.hk = @ + 1,
+                      !.woken = @ \/ (Atomic /\ s.pcA = "inp.wait" /\ ~s.inEv),
                       !.pcH = IF s.hk + 1 < NArr THEN "h.arrive" ELSE "done"]
 BlockedH(s) == s.pcH = "h.arrive" /\ ~s.eioUp      \* nothing arrives while the transport is down
 
@@ -102,7 +110,9 @@ StepC(s) ==
                             !.ck = @ + 1, !.pcC = NextC(s)]
              ELSE [s EXCEPT !.connEv = FALSE, !.connected = FALSE, !.pcC = "conn.set"])   \* final
       [] s.pcC = "conn.set" ->
-            [s EXCEPT !.connEv = TRUE, !.nsUp = IF Conn[s.ck + 1] = "reconnect" THEN TRUE ELSE FALSE,
+            [s EXCEPT !.connEv = TRUE,
+                      !.woken = @ \/ (Atomic /\ s.pcA = "conn.wait" /\ ~s.connEv),
+                      !.nsUp = IF Conn[s.ck + 1] = "reconnect" THEN TRUE ELSE FALSE,
                       !.ck = @ + 1, !.pcC = NextC(s)]
 
 (* ---- scheduler choices -------------------------------------------------- *)
@@ -112,7 +122,21 @@ Choices(s) ==
     \cup (IF s.pcH # "done" /\ ~BlockedH(s) THEN {[th |-> "H", c |-> "run"]} ELSE {})
     \cup (IF s.pcC # "done" THEN {[th |-> "C", c |-> "run"]} ELSE {})
 
-Do(s, a) == CASE a.th = "A" -> StepA(s, a.c) [] a.th = "H" -> StepH(s) [] a.th = "C" -> StepC(s)
+Do1(s, a) == CASE a.th = "A" -> StepA(s, a.c) [] a.th = "H" -> StepH(s) [] a.th = "C" -> StepC(s)
+
+(* asyncio: a task keeps running until it awaits something that is not     *)
+(* ready (A: a wait on a clear event), reaches its next external stimulus  *)
+(* (H: the next arrival, C: the next connection event) or ends             *)
+RECURSIVE SettleA(_), SettleH(_), SettleC(_)
+SettleA(s) == IF s.pcA = "done" \/ (s.pcA \in {"conn.wait", "inp.wait"} /\ BlockedA(s)) THEN s
+              ELSE LET s2 == StepA(s, "run") IN IF s2 = s THEN s ELSE SettleA(s2)
+SettleH(s) == IF s.pcH \in {"done", "h.arrive"} THEN s ELSE SettleH(StepH(s))
+SettleC(s) == IF s.pcC \in {"done", "c.next"} THEN s ELSE SettleC(StepC(s))
+
+Do(s, a) == IF ~Atomic THEN Do1(s, a)
+            ELSE CASE a.th = "A" -> SettleA(StepA(s, a.c))
+                   [] a.th = "H" -> SettleH(StepH(s))
+                   [] a.th = "C" -> SettleC(StepC(s))
 
 (* ---- ghosts ------------------------------------------------------------ *)
 InitGh == [ arrived |-> <<>>,       \* every event the handler appended, in order
@@ -121,8 +145,8 @@ InitGh == [ arrived |-> <<>>,       \* every event the handler appended, in orde
 
 NewResult(s, s2) == IF Len(s2.results) > Len(s.results) THEN s2.results[Len(s2.results)] ELSE <<>>
 
-GhostNext(s, g, a) ==
-    LET s2 == Do(s, a)
+GhostMicro(s, g, a) ==
+    LET s2 == Do1(s, a)
         r  == NewResult(s, s2)
         g1 == [g EXCEPT !.arrived = IF a.th = "H" /\ s.pcH = "buf.append" THEN Append(@, ToStr(s.hk + 1)) ELSE @,
                         !.finalEnded = @ \/ (a.th = "C" /\ s.pcC = "conn.set" /\ ~s.connected)]
@@ -132,6 +156,21 @@ GhostNext(s, g, a) ==
         d  == r = <<"exc", "DisconnectedError">> /\ CurOp(s).op = "receive" /\ s.buf # <<>>
     IN  [g1 EXCEPT !.bad = @ \cup (IF t THEN {"timeout-with-event"} ELSE {})
                               \cup (IF d THEN {"disconnected-before-drained"} ELSE {})]
+
+RECURSIVE GSettleA(_, _), GSettleH(_, _), GSettleC(_, _)
+GSettleA(s, g) == IF s.pcA = "done" \/ (s.pcA \in {"conn.wait", "inp.wait"} /\ BlockedA(s)) THEN g
+                  ELSE LET s2 == StepA(s, "run")
+                       IN  IF s2 = s THEN g ELSE GSettleA(s2, GhostMicro(s, g, [th |-> "A", c |-> "run"]))
+GSettleH(s, g) == IF s.pcH \in {"done", "h.arrive"} THEN g
+                  ELSE GSettleH(StepH(s), GhostMicro(s, g, [th |-> "H", c |-> "run"]))
+GSettleC(s, g) == IF s.pcC \in {"done", "c.next"} THEN g
+                  ELSE GSettleC(StepC(s), GhostMicro(s, g, [th |-> "C", c |-> "run"]))
+
+GhostNext(s, g, a) ==
+    IF ~Atomic THEN GhostMicro(s, g, a)
+    ELSE CASE a.th = "A" -> GSettleA(StepA(s, a.c), GhostMicro(s, g, a))
+           [] a.th = "H" -> GSettleH(StepH(s), GhostMicro(s, g, a))
+           [] a.th = "C" -> GSettleC(StepC(s), GhostMicro(s, g, a))
 
 Init == st = InitSt /\ gh = InitGh
 Next == \E a \in Choices(st) : st' = Do(st, a) /\ gh' = GhostNext(st, gh, a)
